@@ -422,6 +422,8 @@ class InterpCore(object):
                     r = False
             elif a is b:
                 r = True
+            elif isinstance(a, ExtV) or isinstance(b, ExtV):
+                r = isinstance(a, ExtV) and isinstance(b, ExtV) and a.name == b.name
             if r is None:
                 self.err(node, "identity comparison of %r and %r" % (a, b))
             return r if opn == "Is" else (not r)
@@ -447,6 +449,16 @@ class InterpCore(object):
         return Cond("cmp", sym, Num(x), Num(y))
 
     def equals(self, a, b, node=None):
+        if type(a).__name__ == "NTV":
+            a = ListV(a.values, "tuple")
+        if type(b).__name__ == "NTV":
+            b = ListV(b.values, "tuple")
+        if isinstance(a, ListV) and isinstance(b, ListV) and a.kind == b.kind == "tuple" and len(a.items) == len(b.items):
+            res = [self.equals(x, y, node) for x, y in zip(a.items, b.items)]
+            if all(r is True for r in res):
+                return True
+            if any(r is False for r in res):
+                return False
         if isinstance(a, Unknown) or isinstance(b, Unknown):
             return Cond("unknown", Const(next(self.fresh)))
         if isinstance(a, Const) and isinstance(b, Const):
